@@ -94,11 +94,14 @@ def build_facts(repo, out, crate="mp4", profile="dev", cargo_args=("--lib",)):
         shutil.rmtree(tmp, ignore_errors=True)
 
 
-def facts_path(repo=REPO, profile="dev"):
-    """Return the path of the fact file for the current tree, building it if needed."""
+def facts_path(repo=REPO, profile="dev", force=False):
+    """Return the path of the fact file for the current tree, building it if needed (force: rebuild even when cached)."""
     os.makedirs(CACHE, exist_ok=True)
     key = tree_hash(repo, extra=profile)
     out = os.path.join(CACHE, "%s-%s.json" % (profile, key))
+    if force and os.path.exists(out) and out not in _forced:
+        _forced.add(out)
+        os.remove(out)
     if os.path.exists(out):
         return out, key, False
     lock = open(os.path.join(CACHE, ".lock"), "w")
@@ -124,6 +127,7 @@ def facts_path(repo=REPO, profile="dev"):
 
 
 _SHORT_RE = None
+_forced = set()
 
 
 def short(s):
@@ -236,10 +240,10 @@ class Facts:
 _loaded = {}
 
 
-def load(repo=REPO, profile="dev"):
+def load(repo=REPO, profile="dev", force=False):
     t0 = time.time()
-    path, key, built = facts_path(repo, profile)
-    if path in _loaded:
+    path, key, built = facts_path(repo, profile, force)
+    if path in _loaded and not built:
         return _loaded[path]
     with open(path) as fh:
         doc = json.load(fh)
